@@ -44,13 +44,13 @@ impl Cx {
     fn bind(&mut self, n: &str, t: Ty) { self.vars.retain(|(m, _)| m != n); self.vars.push((n.to_string(), t)); }
 }
 
-pub struct Gen<'a> { pub rng: &'a mut Rng, pub fresh: usize, pub fuel: i64, pub feats: HashMap<&'static str, u64>, pub allow_nil_binds: bool, pub rec_fns: Vec<String>, pub last_fn_recursive: bool }
+pub struct Gen<'a> { pub rng: &'a mut Rng, pub fresh: usize, pub fuel: i64, pub feats: HashMap<&'static str, u64>, pub allow_nil_binds: bool, pub allow_partial_params: bool, pub rec_fns: Vec<String>, pub last_fn_recursive: bool }
 
 const TAGS: &[&str] = &["A", "B", "P", "Q"];
 const FIELDS: &[&str] = &["x", "y", "k"];
 
 impl<'a> Gen<'a> {
-    pub fn new(rng: &'a mut Rng, fuel: i64) -> Self { Gen { rng, fresh: 0, fuel, feats: HashMap::new(), allow_nil_binds: false, rec_fns: vec![], last_fn_recursive: false } }
+    pub fn new(rng: &'a mut Rng, fuel: i64) -> Self { Gen { rng, fresh: 0, fuel, feats: HashMap::new(), allow_nil_binds: false, allow_partial_params: false, rec_fns: vec![], last_fn_recursive: false } }
     fn feat(&mut self, k: &'static str) { *self.feats.entry(k).or_insert(0) += 1; }
     fn name(&mut self) -> String { self.fresh += 1; format!("v{}", self.fresh) }
     fn low(&mut self, d: usize) -> bool { self.fuel -= 1; self.fuel <= 0 || d == 0 }
@@ -64,7 +64,10 @@ impl<'a> Gen<'a> {
                 let name = if self.rng.chance(1, 2) { Some(self.rng.pick(TAGS).to_string()) } else { None };
                 let named = self.rng.chance(1, 3);
                 let mut fields = vec![];
-                for i in 0..n.min(3) { let l = if named { Some(FIELDS[i].to_string()) } else { None }; fields.push((l, self.random_ty(d - 1))); }
+                // labels usually in the canonical order, sometimes permuted (the same label then sits at different indices in
+                // different tuple types — what a by-name access on a union has to cope with)
+                let mut order: Vec<usize> = (0..3).collect(); if self.rng.chance(1, 3) { self.rng.shuffle(&mut order); }
+                for i in 0..n.min(3) { let l = if named { Some(FIELDS[order[i]].to_string()) } else { None }; fields.push((l, self.random_ty(d - 1))); }
                 if name.is_none() && fields.is_empty() { return Ty::Tup(Some("Z".into()), vec![]); }
                 Ty::Tup(name, fields)
             }
@@ -177,6 +180,9 @@ impl<'a> Gen<'a> {
             if ty == t { opts.push(if matches!(ty, Ty::Fn(..)) { format!("&{}", n) } else { n.clone() }); }
             // a nilary function named as a term (also as a tuple / spread field) is called
             if let Ty::Fn(a, r) = ty { if a.is_nil() && **r == *t && !self.rec_fns.contains(n) { opts.push(n.clone()); opts.push(n.clone()); } }
+            // by-name access on a union of tuples that all carry the label at the wanted type (accepted by the compiler only when the
+            // label sits at the same index everywhere; rejected programs are discarded)
+            if let Ty::Union(vs) = ty { if let Some(Ty::Tup(_, f0)) = vs.first() { for (l, ft) in f0 { if let Some(l) = l { if ft == t && !ft.has_fn() && vs.iter().all(|v| matches!(v, Ty::Tup(_, fs) if fs.iter().any(|(ol, ot)| ol.as_deref() == Some(l.as_str()) && ot == t))) { opts.push(format!("{}.{}", n, l)); opts.push(format!("{}.{}", n, l)); } } } } }
             if let Ty::Tup(_, fs) = ty { for (i, (l, ft)) in fs.iter().enumerate() { if ft == t && !matches!(ft, Ty::Fn(..)) { opts.push(match l { Some(l) => format!("{}.{}", n, l), None => format!("{}.{}", n, i) }); } } }
         }
         if cx.flow.as_ref() == Some(t) && !matches!(t, Ty::Fn(..)) { opts.push("~".into()); }
@@ -216,7 +222,12 @@ impl<'a> Gen<'a> {
                     if let Ty::Tup(n, fs) = &et { if !fs.is_empty() { let mut names = vec![]; let pat: Vec<String> = fs.iter().map(|(l, ft)| { let v = self.name(); names.push((v.clone(), ft.clone())); match l { Some(l) => format!("{}: {}", l, v), None => v } }).collect(); steps.push(format!("{}[{}] = {}", n.clone().unwrap_or_default(), pat.join(", "), e)); for (v, ft) in names { cx.bind(&v, ft); } cx.flow = Some(Ty::ok()); self.feat("destructuring_bind"); continue; } }
                     let v = self.name(); steps.push(format!("{} = {}", v, e)); cx.bind(&v, et); cx.flow = Some(Ty::ok());
                 }
-                _ => { let v = self.name(); steps.push(format!("{} = {}", v, e)); cx.bind(&v, et); cx.flow = Some(Ty::ok()); }
+                _ => {
+                    // sometimes under the name of a variable already in scope (shadowing, also of variables a closure captured)
+                    let shadowable: Vec<String> = cx.vars.iter().filter(|(n, t)| !t.has_fn() && !FIELDS.contains(&n.as_str())).map(|(n, _)| n.clone()).collect();
+                    let v = if !shadowable.is_empty() && self.rng.chance(1, 6) { self.feat("shadowing_binding"); shadowable[self.rng.below(shadowable.len())].clone() } else { self.name() };
+                    steps.push(format!("{} = {}", v, e)); cx.bind(&v, et); cx.flow = Some(Ty::ok());
+                }
             }
         }
         let last = self.of(t, &cx, d);
@@ -429,6 +440,22 @@ impl<'a> Gen<'a> {
         self.feat("fn_plain");
         let p = if self.rng.chance(1, 4) { let a = self.random_ty(1); let b = self.random_ty(1); Ty::union(vec![a, b]) } else { self.random_ty(2) };
         let r = self.random_ty(1);
+        // a tuple parameter with labelled fields may be declared as a partial type naming only some of them (in the tuple's
+        // order); the body then reaches the fields by name while callers pass the whole tuple
+        if let Ty::Tup(pn, pf) = &p { if self.allow_partial_params && pf.len() >= 2 && pf.iter().all(|(l, _)| l.is_some()) && self.rng.chance(1, 2) {
+            self.feat("fn_partial_parameter_type");
+            let keep: Vec<(Option<String>, Ty)> = pf.iter().enumerate().filter(|(i, _)| *i > 0 || self.rng.chance(1, 3)).map(|(_, f)| f.clone()).collect();
+            let keep = if keep.is_empty() { vec![pf[pf.len() - 1].clone()] } else { keep };
+            let named = self.rng.chance(1, 2) && pn.is_some();
+            let decl = format!("{}({})", if named { pn.clone().unwrap() } else { String::new() }, keep.iter().map(|(l, t)| format!("{}: {}", l.clone().unwrap(), t.src())).collect::<Vec<_>>().join(", "));
+            let mut c = closure_cx.clone(); c.param = Some(Ty::Tup(None, keep.clone())); c.flow = None;
+            let mut parts = vec![]; for (l, t) in &keep { if self.rng.chance(2, 3) { parts.push((format!("${}", l.clone().unwrap()), t.clone())); } }
+            // the body: a tuple of some of the named fields plus a generated value
+            let extra = self.of(&r, &c, d);
+            let body = format!("[{}]", parts.iter().map(|(e, _)| e.clone()).chain(std::iter::once(extra)).collect::<Vec<_>>().join(", "));
+            let rt = Ty::Tup(None, parts.iter().map(|(_, t)| (None, t.clone())).chain(std::iter::once((None, r.clone()))).collect());
+            return (format!("#{} {{ {} }}", decl, body), Ty::Fn(Box::new(p.clone()), Box::new(rt)));
+        } }
         let mut c = closure_cx.clone(); c.param = Some(p.clone()); c.flow = Some(p.clone());
         if closure_cx.vars.iter().any(|(_, t)| !matches!(t, Ty::Fn(..))) { self.feat("closure_captures_in_scope"); }
         let body = if self.rng.chance(1, 2) { let b = self.arms_block(&r, &c, d); b[1..b.len() - 1].trim().to_string() } else { self.total_seq(&r, &c, d).0 };
@@ -561,7 +588,7 @@ pub fn judge(src: &str, b: &qv::Builtins, mods: &HashMap<String, String>, rep: O
             let (cs, rs) = match (c, r) { (RunOutcome::Value(c), Outcome::Value(r)) => (c.show(), r.show()), _ => (format!("{:?}", c), format!("{:?}", r)) };
             // events the reference evaluator saw in this run that are the triggers of recorded type holes (known_findings.json)
             let mut events = vec![];
-            for e in ["nil_bound_by_bare_binder", "failed_match_then_more_terms_in_chain"] { if counters.get(e).copied().unwrap_or(0) > 0 { events.push(e); } }
+            for e in ["nil_bound_by_bare_binder", "failed_match_then_more_terms_in_chain", "partial_parameter_with_a_field_at_another_index"] { if counters.get(e).copied().unwrap_or(0) > 0 { events.push(e); } }
             // second run, one instruction per step, under the IsType monitor: did the VM's type test reject a value that
             // structurally inhabits the tested type?  (recorded finding: the test goes by the type the tuple was built at)
             if let Some(m) = crate::tymon::run(src, b, 400_000) { if m.rejected_structural_member > 0 { events.push("istype_rejected_structural_member"); } }
@@ -590,7 +617,7 @@ pub fn check(rep: &Report) {
     crate::pool::run_indexed(total, 512, |j| {
         let (family, src, feats): (&str, String, HashMap<&'static str, u64>) = if j < items.len() { ("corpus", items[j].src.clone(), HashMap::new()) }
         else if j < items.len() + n_mut { let mut rng = Rng::derive(rep.seed, "C02-mut", 0, j as u64); let it = &items[rng.below(items.len())]; ("mutated", mutate(&it.src, &mut rng), HashMap::new()) }
-        else { let mut rng = Rng::derive(rep.seed, "C02-gen", 0, j as u64); let fuel = *rng.pick(&[4i64, 8, 16, 30, 60]); let nilb = rng.chance(1, 8); let mut g = Gen::new(&mut rng, fuel); g.allow_nil_binds = nilb; let s = g.program(); let f = g.feats; (if nilb { "generated-nil-binders" } else { "generated" }, s, f) };
+        else { let mut rng = Rng::derive(rep.seed, "C02-gen", 0, j as u64); let fuel = *rng.pick(&[4i64, 8, 16, 30, 60]); let nilb = rng.chance(1, 8); let partial = !nilb && rng.chance(1, 8); let mut g = Gen::new(&mut rng, fuel); g.allow_nil_binds = nilb; g.allow_partial_params = partial; let s = g.program(); let f = g.feats; (if nilb { "generated-nil-binders" } else if partial { "generated-partial-parameters" } else { "generated" }, s, f) };
         if family == "mutated" && items.iter().any(|i| i.src == src) { rep.count("mutation_was_identity", 1); return; }
         in_flight.lock().unwrap().insert(j, (std::time::Instant::now(), src.clone()));
         let v0 = crate::pool::catch(|| judge(&src, &b, &mods, Some(rep)));
@@ -611,6 +638,7 @@ pub fn check(rep: &Report) {
                 // of the chain).  The plain generated family never produces either trigger, so nothing is attributed there; in the
                 // other families a disagreement in a run that contained the trigger is attributed to the recorded hole.
                 let sig = if events.contains(&"istype_rejected_structural_member") { "C02:type-test-goes-by-construction-site-type".to_string() }
+                    else if family != "generated" && events.contains(&"partial_parameter_with_a_field_at_another_index") { "C02:field-of-partial-typed-value-read-at-the-partial-types-index".to_string() }
                     else if family != "generated" && events.contains(&"nil_bound_by_bare_binder") { "C02:variable-bound-to-nil-by-bare-binder-is-typed-non-nil".to_string() }
                     else if family != "generated" && events.contains(&"failed_match_then_more_terms_in_chain") { "C02:failed-mid-chain-match-keeps-its-narrowing".to_string() }
                     else { format!("C02:{}:{}", family, cv_hash(&src)) };
